@@ -98,6 +98,8 @@ impl Gen {
       .utxos
       .iter()
       .filter(|(_, o)| !o.script.is_op_return())
+      // the genesis coinbase output is not in the node's UTXO set: unspendable
+      .filter(|(_, o)| o.height > 0)
       .filter(|(_, o)| !o.coinbase || o.height + self.cfg.maturity.max(1) <= height)
       .map(|(op, o)| Avail {
         outpoint: *op,
